@@ -343,6 +343,15 @@ func C13(r *core.Run) {
 					t["tests/regression/tests/"+nme] = c13States[st[i]][0]
 					needs = needs || c13States[st[i]][0] != c13States[st[i]][1]
 				}
+				// the configuration file is none of this command's business, whatever it holds
+				switch a % 7 {
+				case 3:
+					t["regex-assembly/toolchain.yaml"] = ""
+				case 5:
+					t["regex-assembly/toolchain.yaml"] = "# nothing configured\n"
+				case 6:
+					delete(t, "regex-assembly/toolchain.yaml")
+				}
 				t.Materialise(wd)
 				before := core.Snapshot(wd)
 				check, github := mode&1 != 0, mode&2 != 0
@@ -353,7 +362,9 @@ func C13(r *core.Run) {
 						args = append(args, "github")
 					}
 				}
-				args = append(args, "-d", wd, "util", "renumber-tests", "--all")
+				// the root as the shell completes it (trailing slash), or a directory below it
+				dArg := []string{wd, wd + "/", wd + "/tests/", wd + "/rules"}[(a/2)%4]
+				args = append(args, "-d", dArg, "util", "renumber-tests", "--all")
 				// every spelling of the flag value
 				if check {
 					args = append(args, []string{"--check", "-c", "--check=true", "-c=true"}[a%4])
